@@ -18,8 +18,8 @@ LEVEL_TEXT = ("Machine-checked theorems over the Lean models of Line_Buffer (inp
               "list, for EVERY text (frame property through all command parsers); blanks before a command are skipped, '|' is skipped, everything after ';' is ignored, a "
               "';' line changes nothing; a multi-track line is the sequence of per-track parses of the same column range with track_offset = index. (2) Whole layouts, for "
               "command lists of the covered subset LCovered = the subset C05 covers (notes a-h with accidental and every duration form, r ^ l o < > Q q C s &) widened in "
-              "Proofs/LayoutCmd by D n and the event commands [ L, ] ( ) with or without number, * @ v p K E M P G t T _ __ k % with number (hypothesis CmdsOk: numbers are "
-              "ints the command accepts, & finds its note): C06_layout_run_partial - ANY layout (any blanks/tabs/bars between commands, a separator dropped where the spelling stays "
+              "Proofs/LayoutCmd by D n and the event commands [ L, ] ( ) with or without number, * @ v p K E M P G t T _ __ k % with number, R and ~ (hypothesis CmdsOk: numbers are "
+              "ints the command accepts, & finds its note, R / ~ find a long enough event): C06_layout_run_partial - ANY layout (any blanks/tabs/bars between commands, a separator dropped where the spelling stays "
               "unambiguous, ';' comments, any split into header / continuation / empty / comment lines, track lists written with letters, digits or *n) addressed to "
               "distinct tracks is accepted and gives every listed track exactly the builder calls of the command list in order, no other track changes; "
               "C06_layout_invariant_partial - two layouts of one command list leave the track the same (same get_events()); C06_multitrack_eq_single_partial - 'AB.. body' "
@@ -27,7 +27,7 @@ LEVEL_TEXT = ("Machine-checked theorems over the Lean models of Line_Buffer (inp
               "the track at position j receives the plain commands and alternative j of every block, equal to its single-track lines, when no alternative contains '/', "
               "';', '}' or NUL and every block has an alternative per track (that hypothesis is defect D16, proved as two counterexamples and recorded as known findings). "
               "Results are stated modulo the source references (line, column) stamped on the track, which necessarily differ between layouts. NOT proved: the same "
-              "statements for the commands outside the covered subset (R ~ \\ \\= _{..} V '...' and the loop break /); they are kept as "
+              "statements for the commands outside the covered subset (\\ \\= _{..} V '...' and the loop break /); they are kept as "
               "C06_full_statement_layout_invariant / C06_full_statement_multitrack_eq_single and decided per generated case by the metamorphic correspondence stream (every "
               "layout of every generated stream parsed by the real code and by the model, the spec demanding equal events per track across layouts and equality with "
               "the meaning of each track's command list).")
@@ -35,7 +35,7 @@ LEVEL_NOTE = ("Trusted: Lean kernel (propext, Classical.choice, Quot.sound), the
               "the C++ established by differential testing), Spec/Layout + Spec/MmlMeaning (my reading of mml_ref.md), the layout generator in checks/c06.py "
               "(what counts as a layout of a stream), glibc strtol in the C locale. Proved in full: track_id_map, star_decimal, per_track_state, the local lexer/parser "
               "lemmas. Partial: conditional_select and the block theorems (hypothesis = no '/', ';', '}', NUL inside the alternatives and one alternative per track: "
-              "D16); layout_run / layout_invariant / multitrack_eq_single (hypothesis CmdsOk = the command subset C05's span theorem covers, numbers in range; the "
+              "D16); layout_run / layout_invariant / multitrack_eq_single (hypothesis CmdsOk = the covered command subset LCovered - C05's span theorem widened in Proofs/LayoutCmd - with numbers in range; the "
               "layouts themselves are arbitrary). The layout theorems speak about the model's Track values modulo references; that the real parser produces the same "
               "events as the model on layouts is what the correspondence stream checks (the proof examples are corpus cases of the stream). Oracle only: layouts "
               "containing commands outside the covered subset, the error behaviour of rejected streams, texts that are not layouts (must be rejected).")
@@ -382,6 +382,8 @@ def corpus_streams():
     evs = [X("tempoBpm", 120), X("ins", 3), X("vol", 12), X("loopStart"), n_("c"), X("volDown"), n_("d"), X("volUp", 2), X("loopEnd", 4), X("segno"), X("pan", -1), X("transpose", 2), X("transposeRel", -1), X("kTranspose", 3), X("platform", 5)]
     yield [Seg([0, 1], [("c", c_) for c_ in evs])], [
         ["AB t120 @3 v12 [c(d)2]4 L p-1 _2 __-1 k3 %5"], ["B t120|@3\tv12 [ c ( d )2 ]4", " L p-1 _2|__-1 k3\t%5 ;end", "A t120|@3\tv12 [ c ( d )2 ]4", " L p-1 _2|__-1 k3\t%5 ;end"]]
+    yield [Seg([0, 1], [("c", n_("c", L(4))), ("c", Cmd("R", L(8))), ("c", Cmd("g", 3, "n", L(16))), ("c", n_("e"))])], [
+        ["AB c4 R8 ~d16 e"], ["A c4|R8", " ~d16\te", "B c4|R8", " ~d16\te"]]
     # hexadecimal numbers need their blank
     yield [Seg([0], [("c", n_("g", ("L", Num(12, True), 0))), ("c", n_("e")), ("c", Cmd("x", "vol", Num(10, True))), ("c", n_("a"))])], [
         ["A g$c e v$a a"], ["A g$c|e|v$a|a"], ["A g$c\te v$a", " a"]]
